@@ -103,6 +103,18 @@ def obs_gmap(g):
 # Coq printers
 # ------------------------------------------------------------------------------------------------
 
+_real_cstr = cstr
+
+
+def cstr(s):   # noqa: F811  (compact form of common.cstr: S"..." for plain ASCII, code points otherwise)
+    """python str -> Coq term of type str (list N).  Plain printable ASCII without a double quote is written with the
+    S"..." notation of Base/Str.v (of_string), which Coq parses and elaborates several times faster than a list of
+    numerals; anything else as the list of code points."""
+    if s and all(32 <= ord(c) < 127 and c != '"' for c in s):
+        return '(S"%s")' % s
+    return '(' + _real_cstr(s) + ')'
+
+
 def py_val(o):
     if isinstance(o, bool):
         return 'VB ' + cbool(o)
@@ -327,7 +339,7 @@ def shrink_lists(case, paths, failing):
 # ------------------------------------------------------------------------------------------------
 # stream ops
 # ------------------------------------------------------------------------------------------------
-HEADER = ('From Coq Require Import List ZArith NArith.\nImport ListNotations.\n'
+HEADER = ('From Coq Require Import List ZArith NArith String.\nImport ListNotations.\n'
           'From FIM Require Import Base.Str Model.Deleg12 Model.Pools12.\n')
 
 
@@ -864,15 +876,37 @@ class PoolsS(Stream):
     header = HEADER
     case_type = '(dtype * list pspec) * val'
     check_fn = 'check_pools'
-    rule = ('pool families of 1..4 pools over 6 nodes and 3 delegation ids (constructor and setter construction paths; '
+    rule = ('thorough: EXHAUSTIVELY all 324 two-pool families over 3 nodes x 2 delegation ids (quick: 60 of them), plus random '
+            'pool families of 1..4 pools over 6 nodes and 3 delegation ids (constructor and setter construction paths; '
             'a node may define one pool and reference another; shared delegation ids; conflicting (node, delegation id) '
             'slots; invalid pools: no delegation id / node / reference nodes / details, foreign details, defining node '
             'inside its own reference set, wrong pool type); build_index, generate, incorporate everything generated in two '
             'node orders; non-trivial = at least two pools and generate succeeded, or a rejection; distinct by case value')
 
+    def exhaustive(self):
+        """every family of two pools over three nodes and two delegation ids: defining node x non-empty reference set
+        (of the other nodes) x delegation id, per pool: 18 x 18 = 324 families (incl. every conflicting one)"""
+        import itertools
+        nodes = NODES[:3]
+        one = []
+        for on in nodes:
+            others = [n for n in nodes if n != on]
+            for k in (1, 2):
+                for for_ in itertools.combinations(others, k):
+                    for did in IDS[:2]:
+                        one.append((on, list(for_), did))
+        out = []
+        for a, b in itertools.product(one, one):
+            specs = [{'ptype': LAB, 'pid': pid, 'did': x[2], 'on': x[0], 'for': x[1],
+                      'ops': [['details', LAB, [['vlan_range', v]]]]}
+                     for pid, x, v in (('p1', a, '1-100'), ('p2', b, '101-200'))]
+            out.append({'ty': LAB, 'specs': specs})
+        return out
+
     def gen(self, rng, tier):
         n = 400 if tier == 'quick' else 10000
-        out = []
+        ex = self.exhaustive()
+        out = ex if tier != 'quick' else rng.sample(ex, 60)
         for _ in range(n):
             ty = rng.choice([CAP, LAB])
             k = rng.choice([1, 2, 2, 3, 3, 4])
@@ -1344,7 +1378,12 @@ class Annotate(Stream):
         return {'case': case, 'impl': {k: o.get(k) for k in ('props', 'back', 'pools')}}
 
     def shrink(self, case, failing):
-        return shrink_lists(case, [['specs'], ['singles']], failing)
+        c = shrink_lists(case, [['specs'], ['singles']], failing)
+        paths = [['specs', i, 'for'] for i in range(len(c['specs']))]
+        paths += [['specs', i, 'ops'] for i in range(len(c['specs']))]
+        paths += [['singles', i, 2] for i in range(len(c['singles']))]
+        paths += [['singles', i, 2, j, 'details', 1] for i in range(len(c['singles'])) for j in range(len(c['singles'][i][2]))]
+        return shrink_lists(c, paths, failing)
 
 
 # ------------------------------------------------------------------------------------------------
